@@ -50,6 +50,7 @@ func StoreInt32(addr *int32, val int32) {
 		store(unsafe.Pointer(addr), unsafe.Sizeof(*addr), "atomic.Store")
 	}
 	atomic.StoreInt32(addr, val)
+	vrt.Yield("after atomic store")
 }
 
 func AddInt32(addr *int32, delta int32) int32 {
@@ -95,6 +96,7 @@ func StoreInt64(addr *int64, val int64) {
 		store(unsafe.Pointer(addr), unsafe.Sizeof(*addr), "atomic.Store")
 	}
 	atomic.StoreInt64(addr, val)
+	vrt.Yield("after atomic store")
 }
 
 func AddInt64(addr *int64, delta int64) int64 {
@@ -140,6 +142,7 @@ func StoreUint32(addr *uint32, val uint32) {
 		store(unsafe.Pointer(addr), unsafe.Sizeof(*addr), "atomic.Store")
 	}
 	atomic.StoreUint32(addr, val)
+	vrt.Yield("after atomic store")
 }
 
 func AddUint32(addr *uint32, delta uint32) uint32 {
@@ -185,6 +188,7 @@ func StoreUint64(addr *uint64, val uint64) {
 		store(unsafe.Pointer(addr), unsafe.Sizeof(*addr), "atomic.Store")
 	}
 	atomic.StoreUint64(addr, val)
+	vrt.Yield("after atomic store")
 }
 
 func AddUint64(addr *uint64, delta uint64) uint64 {
@@ -230,6 +234,7 @@ func StoreUintptr(addr *uintptr, val uintptr) {
 		store(unsafe.Pointer(addr), unsafe.Sizeof(*addr), "atomic.Store")
 	}
 	atomic.StoreUintptr(addr, val)
+	vrt.Yield("after atomic store")
 }
 
 func AddUintptr(addr *uintptr, delta uintptr) uintptr {
@@ -282,6 +287,7 @@ func StorePointer(addr *unsafe.Pointer, val unsafe.Pointer) {
 		store(unsafe.Pointer(addr), unsafe.Sizeof(*addr), "atomic.StorePointer")
 	}
 	atomic.StorePointer(addr, val)
+	vrt.Yield("after atomic store")
 }
 
 func SwapPointer(addr *unsafe.Pointer, new unsafe.Pointer) unsafe.Pointer {
@@ -322,6 +328,7 @@ func (v *Value) Store(val any) {
 		store(unsafe.Pointer(v), unsafe.Sizeof(*v), "atomic.Value.Store")
 	}
 	v.v.Store(val)
+	vrt.Yield("after atomic.Value.Store")
 }
 
 func (v *Value) Swap(new any) any {
